@@ -264,6 +264,25 @@ Definition newick_alphabet (o : nwopt) (isroot : bool) (t : tree) : bool :=
           && (isroot || len_ok o t) && forallb (all_nodes (len_ok o)) (tkids t)))
   && ((nilb (o_len o) && nilb (o_keys o)) || o_seps_default o).
 
+(* the same with float lengths admitted (any non-zero number): used by the check for the round-trip
+   clause only; the theorems are stated for newick_alphabet *)
+Definition len_ok_ext (o : nwopt) (t : tree) : bool :=
+  match attr_get (o_len o) (tattrs t) with
+  | Some (VInt z) => Z.ltb 0 z
+  | Some (VFloat n d) => negb (Z.eqb n 0) && negb (Z.eqb d 0)
+  | _ => false
+  end.
+Definition newick_alphabet_ext (o : nwopt) (isroot : bool) (t : tree) : bool :=
+  all_nodes (node_in_alphabet o) t
+  && (o_inter o || all_nodes (fun x => negb (auto_name (tname x))) t)
+  && sib_distinct t
+  && forallb key_ok (o_keys o) && names_nodup (o_keys o)
+  && (nilb (o_len o)
+      || (key_ok (o_len o) && negb (existsb (str_eqb (o_len o)) (o_keys o))
+          && (isroot || len_ok_ext o t) && forallb (all_nodes (len_ok_ext o)) (tkids t)))
+  && ((nilb (o_len o) && nilb (o_keys o)) || o_seps_default o).
+
+
 (* ------------------------------------------------------------------------------------------ *)
 (* printed tree                                                                                *)
 
